@@ -40,6 +40,12 @@ def generate(ctx):
     kinds = ['dry', 'moist'] if quick else ['dry', 'time', 'moist', 'cloud']
     for kind in kinds:
         ents.append(('pe_terms', {'kind': kind}))
+    # states exactly at rest (zero wind): derivative singularities (sqrt/norm at 0, kinks at 0) only show here
+    ents.append(('pe_terms', {'kind': 'dry', 'rest': True}))
+    ents.append(('pe_terms', {'kind': 'dry', 'rest': True, 'upwind': True}))
+    ents.append(('pe_terms', {'kind': 'dry', 'upwind': True}))
+    ents.append(('sw_terms', {'rest_layer': True}))
+    ents.append(('sw_step', {'integrator': 'backward_forward_euler', 'rest_layer': True}))
     steps = ([('dry', 'imex_rk_sil3', ['exponential']), ('moist', 'crank_nicolson_rk3', []), ('dry', 'backward_forward_euler', ['diffusion'])]
              if quick else [(k, i, f) for k in ['dry', 'moist'] for i in dyn.INTEGRATORS for f in ([], ['exponential', 'diffusion'])])
     for kind, integ, filt in steps:
@@ -194,13 +200,17 @@ def r_interp(ctx, a):
         _ad_oracles(ctx, f'{nm} wrt query', lambda t: jnp.stack([fn(t[i], jnp.asarray(xp), fp) for i in range(5)]), q, dq, h=1e-4)
 
 
-def _pe_setup(rng, kind, K=3):
+def _pe_setup(rng, kind, K=3, upwind=False):
     g = dyn.grid(M=4, L=5, I=13, J=7)
     c = dyn.coords(g, util.uneven_boundaries(rng, K))
     specs = dyn.pe_specs()
     tref = 250.0 + rng.integers(-20, 21, size=K).astype(np.float64)
     oro = dyn.modal_field(rng, g, (), 2, amp=0.01)
-    eq = dyn.pe_equation(kind, c, specs, tref, oro)
+    kw = {}
+    if upwind:
+        from dinosaur import sigma_coordinates as sc
+        kw['vertical_advection'] = sc.upwind_vertical_advection
+    eq = dyn.pe_equation(kind, c, specs, tref, oro, **kw)
     admissible = lambda r: r * (np.asarray(g.mask) & (g.modal_mesh[1] <= 2))
     def make(with_mean=True):
         st = dyn.pe_state(rng, c, 2, dyn.PE_TRACERS[kind], with_time=(kind != 'dry'))
@@ -213,14 +223,32 @@ def _to_jnp(tree):
     return m['jax'].tree_util.tree_map(lambda q: m['jnp'].asarray(q, dtype=np.float64), tree)
 
 
+def _at_rest(st):
+    m = dyn.mods(); jnp = m['jnp']
+    return st.replace(vorticity=jnp.zeros_like(st.vorticity), divergence=jnp.zeros_like(st.divergence))
+
+
 def r_pe_terms(ctx, a):
     rng = _seed(ctx, a)
-    g, c, eq, make = _pe_setup(rng, a['kind'])
+    g, c, eq, make = _pe_setup(rng, a['kind'], upwind=a.get('upwind', False))
     x = _to_jnp(make()); v = _to_jnp(make())
-    _ad_oracles(ctx, f'{a["kind"]}.explicit_terms', eq.explicit_terms, x, v, fd_tol=1e-6)
-    _ad_oracles(ctx, f'{a["kind"]}.implicit_terms', eq.implicit_terms, x, v)
+    tag = a['kind'] + ('[upwind]' if a.get('upwind') else '')
+    if a.get('rest'):
+        x = _at_rest(x); tag += '[at rest]'
+    # upwind advection at rest sits exactly on the kink of max(w,0)/min(w,0): the central difference
+    # there equals JAX's symmetric derivative only up to O(h) (one-sided second-order terms), so the
+    # tolerance is relative 2e-3 with h = 1e-4 (a wrong branch choice gives O(1) relative errors)
+    kink = bool(a.get('upwind') and a.get('rest'))
+    _ad_oracles(ctx, f'{tag}.explicit_terms', eq.explicit_terms, x, v, h=1e-4 if kink else 1e-3,
+                fd_tol=2e-3 if kink else (1e-5 if a.get('upwind') else 1e-6))
+    if a.get('rest') or a.get('upwind'):
+        step = dyn.integrator('backward_forward_euler', eq, 0.02)
+        _ad_oracles(ctx, f'{tag} step backward_forward_euler', step, x, v, h=1e-4 if kink else 1e-3,
+                    fd_tol=2e-3 if kink else 1e-5)
+        return
+    _ad_oracles(ctx, f'{tag}.implicit_terms', eq.implicit_terms, x, v)
     for eta in (0.05, -0.05):
-        _ad_oracles(ctx, f'{a["kind"]}.implicit_inverse eta={eta}', lambda s: eq.implicit_inverse(s, eta), x, v)
+        _ad_oracles(ctx, f'{tag}.implicit_inverse eta={eta}', lambda s: eq.implicit_inverse(s, eta), x, v)
 
 
 def r_pe_step(ctx, a):
@@ -241,9 +269,15 @@ def _sw_setup(rng):
     return g, c, eq
 
 
+def _sw_rest_layer(st):
+    # lower layer exactly at rest
+    return st.replace(vorticity=st.vorticity.at[1].set(0.0), divergence=st.divergence.at[1].set(0.0))
+
+
 def r_sw_terms(ctx, a):
     rng = _seed(ctx, a); g, c, eq = _sw_setup(rng)
     x = _to_jnp(dyn.sw_state(rng, c)); v = _to_jnp(dyn.sw_state(rng, c))
+    if a.get('rest_layer'): x = _sw_rest_layer(x)
     _ad_oracles(ctx, 'shallow_water.explicit_terms', eq.explicit_terms, x, v)
     _ad_oracles(ctx, 'shallow_water.implicit_terms', eq.implicit_terms, x, v)
     _ad_oracles(ctx, 'shallow_water.implicit_inverse', lambda s: eq.implicit_inverse(s, 0.1), x, v)
@@ -253,6 +287,7 @@ def r_sw_step(ctx, a):
     rng = _seed(ctx, a); g, c, eq = _sw_setup(rng)
     step = dyn.integrator(a['integrator'], eq, 0.05)
     x = _to_jnp(dyn.sw_state(rng, c)); v = _to_jnp(dyn.sw_state(rng, c))
+    if a.get('rest_layer'): x = _sw_rest_layer(x)
     _ad_oracles(ctx, f'shallow water step {a["integrator"]}', step, x, v, fd_tol=1e-6)
 
 
